@@ -69,8 +69,11 @@ def all_cases():
 
 def enum_programs(mode):
     cases = list(all_cases())
-    return [{'machine': MACHINE, 'seed': None, 'block': i // BLOCK, 'part': 'reenter', 'ops': cases[i:i + BLOCK]}
-            for i in range(0, len(cases), BLOCK)]
+    if mode.get('stride') and mode.get('tier') == 'quick':
+        cases = cases[::mode['stride']]       # memcheck is ~40x slower: the quick tier runs every n-th case, the thorough tier all
+    blk = mode.get('block', BLOCK)
+    return [{'machine': MACHINE, 'seed': None, 'block': i // blk, 'part': 'reenter', 'ops': cases[i:i + blk]}
+            for i in range(0, len(cases), blk)]
 
 
 def generate(seed, mode):
@@ -508,7 +511,20 @@ def execute_reenter(program, ctx, mode):
         if again != a1:
             ctx.violation('C11', 'stale', 'C11|reenter|stale-answer-survives|%s|%s|%s' % (entry, point, action),
                           {'case': case, 'got': repr(again), 'want': repr(a1), 'interrupted_call_returned': repr(got)})
-        ctx.log(ctx.step, flav, entry, point, action, cache_state, fired[0], norm(got) if exc is None else 'raise:' + type(exc).__name__, norm(again))
+        # 4. every cache dictionary reachable from the lookup object has exactly one owner once the calls are over
+        #    (a reference kept by a lookup that left through an error path would show here)
+        pins = None          # (the audit's own list of pinned dictionaries would count as an owner,
+        exc_name = type(exc).__name__ if exc is not None else None
+        exc = None           #  and so would the frames in the traceback of a kept exception: the Python lookup's local `cache`)
+        leaves = leaf_dicts(S._v_lookup)
+        for i in range(len(leaves)):
+            rc = sys.getrefcount(leaves[i])          # its container + `leaves` + getrefcount's argument
+            if rc != 3:
+                ctx.violation('C11', 'refleak', 'C11|reference-balance|cache-dict|%s|%s' % (entry, 'leak' if rc > 3 else 'underflow'),
+                              {'case': case, 'refcount': rc, 'expected': 3})
+        ctx.probe('cache-dict-owners-checked', len(leaves))
+        del leaves
+        ctx.log(ctx.step, flav, entry, point, action, cache_state, fired[0], norm(got) if exc_name is None else 'raise:' + exc_name, norm(again))
         return S, B, (R0, R1, R2, P0, ob, K)
 
     def refbalance(case):
